@@ -27,6 +27,10 @@ const (
 )
 
 func makeAvailableMemory(cache *MemCache, requiredMem, maxMem, minMem uint64) error {
+	if forced, ok := verifCacheSize(requiredMem); ok {
+		cache.Update(forced)
+		return nil
+	}
 	if requiredMem > maxMem {
 		requiredMem = maxMem
 	}
@@ -101,6 +105,7 @@ func (mdb *MassDBV1) executePlot(result chan error) {
 	}
 	logging.CPrint(logging.INFO, "remove hashMapA",
 		logging.LogFormat{"bit_length": mdb.bl, "pub_key": hex.EncodeToString(mdb.pubKey.SerializeCompressed())})
+	verifPoint("before-remove-A", "B", 0, 0)
 	mdb.HashMapA.Close()
 	os.Remove(mdb.filePathA)
 	mdb.HashMapA = nil
@@ -168,17 +173,22 @@ func (mdb *MassDBV1) prePlotWork(cache *MemCache) error {
 			logging.CPrint(logging.ERROR, "fail on writing cache to file", logging.LogFormat{"err": err, "n": n})
 			return err
 		}
+		verifPoint("data-written", "A", uint64(startPoint), uint64(endPoint))
 		hmA.data.Sync() // write pre-plot data first
+		verifPoint("data-synced", "A", uint64(startPoint), uint64(endPoint))
 
 		hmA.checkpoint = startPoint + 1
 		hmA.UpdateCheckpoint()
+		verifPoint("checkpoint-written", "A", uint64(startPoint), uint64(endPoint))
 		hmA.data.Sync() // then write new checkpoint
+		verifPoint("checkpoint-synced", "A", uint64(startPoint), uint64(endPoint))
 		startPoint = endPoint
 	}
 
 	hmA.checkpoint = hmA.volume
 	hmA.UpdateCheckpoint()
 	hmA.data.Sync()
+	verifPoint("final-checkpoint", "A", uint64(hmA.volume), uint64(hmA.volume))
 	return nil
 }
 
@@ -258,16 +268,21 @@ func (mdb *MassDBV1) plotWork(cache *MemCache) error {
 			logging.CPrint(logging.ERROR, "fail on writing cache to file", logging.LogFormat{"err": err, "n": n})
 			return err
 		}
+		verifPoint("data-written", "B", uint64(startPoint), uint64(endPoint))
 		hmB.data.Sync() // write plot data first
+		verifPoint("data-synced", "B", uint64(startPoint), uint64(endPoint))
 
 		hmB.checkpoint = startPoint + 1
 		hmB.UpdateCheckpoint()
+		verifPoint("checkpoint-written", "B", uint64(startPoint), uint64(endPoint))
 		hmB.data.Sync() // then update checkpoint
+		verifPoint("checkpoint-synced", "B", uint64(startPoint), uint64(endPoint))
 		startPoint = endPoint
 	}
 
 	hmB.checkpoint = half
 	hmB.UpdateCheckpoint()
 	hmB.data.Sync()
+	verifPoint("final-checkpoint", "B", uint64(half), uint64(half))
 	return nil
 }
